@@ -1,7 +1,6 @@
 package props
 
 import (
-	"os"
 	"google.golang.org/protobuf/proto"
 
 	"github.com/avos-io/goat/gen/goatorepo"
@@ -104,11 +103,6 @@ func withConfig(cfgs []string, scs ...*explore.Scenario) []*explore.Scenario {
 				env.ConfigUses = map[string]int{}
 				defer func() { env.Config = "" }()
 				base()
-				if env.Config == "" { // consumed by a NewDirect that accepted it
-					if (containsStr(cfg, "interceptors") || containsStr(cfg, "chain")) && env.ConfigUses["interceptor"] == 0 && (env.ConfigUses["stats"] > 0 || os.Getenv("VCONFIGSTRICT") != "") {
-						panic("harness: configuration " + cfg + " was requested but no RPC went through its interceptors")
-					}
-				}
 			}
 			out = append(out, &c)
 		}
@@ -121,4 +115,22 @@ func configKinds(tier string) []string {
 		return env.ConfigKinds
 	}
 	return []string{"stats2+interceptors", "chain+stats", "stats2+chain+services+serialize", "demux", "via-rewriting-proxy", "via-rewriting-proxy-nocallback+stats"}
+}
+
+// withoutDisconnectCallback wraps proxy scenarios so that their proxy has no disconnect callback
+// (nil is a documented option): everything but "the callback was called" still applies.
+func withoutDisconnectCallback(scs ...*explore.Scenario) []*explore.Scenario {
+	var out []*explore.Scenario
+	for _, sc := range scs {
+		c := *sc
+		base := sc.Run
+		c.Name = sc.Name + "/no-disconnect-callback"
+		c.Run = func() {
+			env.ProxyNoCallback = true
+			defer func() { env.ProxyNoCallback = false }()
+			base()
+		}
+		out = append(out, &c)
+	}
+	return out
 }
